@@ -630,6 +630,58 @@ func neighbours(r *common.Rng) []atom {
 	return out
 }
 
+// strNeighbours returns strings (or byte strings) around a random base:
+// prefixes, extensions, last element +-1, multi-byte runes.
+func strNeighbours(r *common.Rng, asBytes bool) []atom {
+	k := byte('s')
+	if asBytes {
+		k = 'y'
+	}
+	runes := []string{"a", "b", "c", "z", "A", " ", "0", "\u00e9", "\u00ff", "\u65e5", "~"}
+	if asBytes {
+		runes = append(runes, "\x00", "\x7f", "\x80", "\xff")
+	}
+	var base string
+	for i, n := 0, r.Intn(5); i < n; i++ {
+		base += common.Pick(r, runes)
+	}
+	var out []atom
+	seen := map[string]bool{}
+	add := func(s string) {
+		if !seen[s] {
+			seen[s] = true
+			out = append(out, atom{k: k, s: s})
+		}
+	}
+	add(base)
+	add(base + common.Pick(r, runes))
+	add(base + "a")
+	add("")
+	if len(base) > 0 {
+		// drop the last rune
+		rs := []rune(base)
+		if asBytes {
+			add(base[:len(base)-1])
+		} else {
+			add(string(rs[:len(rs)-1]))
+		}
+		if !asBytes {
+			last := rs[len(rs)-1]
+			add(string(rs[:len(rs)-1]) + string(last+1))
+			if last > 1 {
+				add(string(rs[:len(rs)-1]) + string(last-1))
+			}
+		} else {
+			b := []byte(base)
+			c := b[len(b)-1]
+			add(string(append(append([]byte(nil), b[:len(b)-1]...), c+1)))
+			add(string(append(append([]byte(nil), b[:len(b)-1]...), c-1)))
+		}
+	}
+	add(common.Pick(r, runes) + base)
+	return out
+}
+
 // --------------------------------------------------------------- driver ----
 
 func main() {
@@ -934,6 +986,43 @@ func main() {
 			probes = probes[:10]
 		}
 		emitEV("ev_big", cs, probes)
+	}
+	// (7) random strings / bytes near each other, with every operator incl. regexps
+	nStr := common.Atoi(args["--strs"], 1200)
+	strOps := []string{"lt", "le", "gt", "ge", "ne"}
+	pats := []string{"^a", "b$", "a.c", "^[a-c]+$", "\u00e9", "", "^$", "a|z"}
+	for i := 0; i < nStr; i++ {
+		asBytes := rng.Intn(3) == 0
+		ns := strNeighbours(rng, asBytes)
+		n := 1 + rng.Intn(maxLen)
+		var cs []constr
+		for len(cs) < n {
+			switch rng.Intn(9) {
+			case 0:
+				if asBytes {
+					cs = append(cs, constr{k: 'T', name: "bytes"})
+				} else {
+					cs = append(cs, constr{k: 'T', name: "string"})
+				}
+			case 1:
+				cs = append(cs, constr{k: 'A', a: common.Pick(rng, ns)})
+			case 2, 3:
+				if asBytes {
+					cs = append(cs, constr{k: 'B', op: "ne", a: common.Pick(rng, ns)})
+				} else {
+					cs = append(cs, constr{k: 'B', op: common.Pick(rng, []string{"ma", "nm"}), a: atom{k: 's', s: common.Pick(rng, pats)}})
+				}
+			default:
+				cs = append(cs, constr{k: 'B', op: common.Pick(rng, strOps), a: common.Pick(rng, ns)})
+			}
+		}
+		probes := append([]atom(nil), ns...)
+		if len(probes) > 9 {
+			common.Shuffle(rng, probes)
+			probes = probes[:9]
+		}
+		probes = append(probes, mkInt(1))
+		emitEV("ev_str", cs, probes)
 	}
 	flush()
 
